@@ -753,14 +753,23 @@ def judge_in_child(root, spec, entries, models, committed, inflight, post, fix=N
 
 
 # =============================================================================================== classification
+def _only_annotation(vd):
+    """The violation is about the annotation / description of an entry and about nothing else."""
+    if vd["what"] == "annot":
+        return True
+    if vd.get("diffs"):
+        return all(d.startswith("description ") for d in vd["diffs"])
+    return vd.get("exc") == "KeyError" and "No annotation for" in vd["msg"]
+
+
 def classify(vd, point):
     """vd: violation dict of judge_state; point: crash-point description (None for fault-free runs).
     -> (key or None, needs_delta or None)"""
     what, cls = vd["what"], vd["cls"]
     if point is not None:
         torn_rel = point.get("torn_rel")
-        if point["flavour"] == "torn" and torn_rel == "ctx/annotations" and (
-                what in ("annot", "name") or (what == "poststore" and not vd.get("store_failed") and vd.get("exc", "KeyError") == "KeyError")):
+        if point["flavour"] == "torn" and torn_rel == "ctx/annotations" and what in ("annot", "name", "poststore") and (
+                not vd.get("store_failed") and _only_annotation(vd)):
             # the annotations file is rewritten in place: a death inside that write loses the earlier lines, shows a
             # partial line as an annotation, and a line without terminator swallows the next annotation appended
             return KEY_ANNOT_ATOMIC, None
@@ -790,13 +799,13 @@ def classify_fidelity(vd, spec):
         return KEY_NA
     if what in ("log", "postlog") and vd.get("num_only"):
         return KEY_LOG_NUM
-    if st == "annot_nl" and what in ("annot", "name"):
+    if st == "annot_nl" and what in ("annot", "name") and _only_annotation(vd):
         t = vd.get("text")
         if what == "annot" and t is not None and ("\n" in t or "\r" in t):
             return KEY_ANNOT_NL
         if what == "name" and any("\n" in o.get("text", "") or "\r" in o.get("text", "") for o in spec["ops"] if o["op"] == "annot" and o["name"] == vd.get("name")):
             return KEY_ANNOT_NL
-    if st == "name_blank" and what in ("annot", "name"):
+    if st == "name_blank" and what in ("annot", "name") and _only_annotation(vd):
         blank = [m["name"] for m in spec["models"] if " " in m["name"]]
         n = vd.get("name")
         if n is not None and (" " in n or any(b.split(" ", 1)[0] == n for b in blank)):
